@@ -155,7 +155,7 @@ PROPS.update({
         "props": ["MassVerif.Props.C14"],
         "harnesses": [{"name": "walletconc", "pkg": "harness/walletconc", "race": True, "env": {"GORACE": "halt_on_error=1"},
                        "crash_key": "data-race-or-fatal-error", "replayable": False,
-                       "quick": {"n": 12, "len": 12}, "thorough": {"n": 300, "len": 30}, "search": {"n": 80, "len": 20}}],
+                       "quick": {"n": 12, "len": 12}, "thorough": {"n": 80, "len": 30}, "search": {"n": 40, "len": 20}, "timeout": 9000}],
         "level_text": "PARTIAL by nature. Proof (Lean 4): (1) regenerated structural facts, decided by `decide`: every exported keystore-manager "
                       "method that touches shared state is one critical section of the manager mutex (Lock(); defer Unlock() as its first "
                       "two statements) and every AddrManager method touching the address map one of the AddrManager mutex; (2) for any "
@@ -451,16 +451,16 @@ PROPS["C17"]["level_text"] += (" Over whole histories (Props/C17Order): when no 
 # C05 also runs the concurrent wallet harness (race detector): signatures returned under concurrent lock/unlock must verify
 PROPS["C05"]["harnesses"].append({"name": "walletconc", "pkg": "harness/walletconc", "race": True, "env": {"GORACE": "halt_on_error=1"},
                                   "crash_key": "data-race-or-fatal-error", "replayable": False,
-                                  "quick": {"n": 6, "len": 10}, "thorough": {"n": 150, "len": 30}, "search": {"n": 40, "len": 20}})
+                                  "quick": {"n": 6, "len": 10}, "thorough": {"n": 50, "len": 30}, "search": {"n": 30, "len": 20}, "timeout": 6000})
 # C06 too: concurrent key requests never return one key twice, and the ordinal returned is the key's index
 PROPS["C06"]["harnesses"].append({"name": "walletconc", "pkg": "harness/walletconc", "race": True, "env": {"GORACE": "halt_on_error=1"},
                                   "crash_key": "data-race-or-fatal-error", "replayable": False,
-                                  "quick": {"n": 6, "len": 10}, "thorough": {"n": 150, "len": 30}, "search": {"n": 40, "len": 20}})
+                                  "quick": {"n": 6, "len": 10}, "thorough": {"n": 50, "len": 30}, "search": {"n": 30, "len": 20}, "timeout": 6000})
 # C03 too: a keystore created while the passphrase changes is governed by the passphrase in force; and the fault
 # enumeration over passphrase changes (two and three keystores), judged by "one passphrase governs all keystores"
 PROPS["C03"]["harnesses"].append({"name": "walletconc", "pkg": "harness/walletconc", "race": True, "env": {"GORACE": "halt_on_error=1"},
                                   "crash_key": "data-race-or-fatal-error", "replayable": False,
-                                  "quick": {"n": 6, "len": 10}, "thorough": {"n": 150, "len": 30}, "search": {"n": 40, "len": 20}})
+                                  "quick": {"n": 6, "len": 10}, "thorough": {"n": 50, "len": 30}, "search": {"n": 30, "len": 20}, "timeout": 6000})
 PROPS["C03"]["harnesses"].append({"name": "walletfaultpass", "pkg": "harness/wallet", "driver": "MassVerif/Driver/Wallet.lean",
                                   "quick": {"n": 0, "len": 3, "focus": "C03F"}, "thorough": {"n": 6, "len": 5, "focus": "C03F"},
                                   "search": {"n": 2, "len": 4, "focus": "C03F"}, "timeout": 3000})
